@@ -142,14 +142,16 @@ impl SyncReadBuf {
                 let available_space = capacity - current_len;
 
                 // If target space is less than base capacity, grow the buffer.
-                let target_space = self.base_capacity;
+                // Never lend out more room than the size limit still allows.
+                let remaining = self.max_buffer_size - current_len;
+                let target_space = self.base_capacity.min(remaining);
                 if available_space < target_space {
                     let new_capacity = current_len + target_space;
                     let _ = inner.reserve_exact(new_capacity - capacity);
                 }
 
                 let len = inner.buf_len();
-                let read_slice = inner.slice(len..);
+                let read_slice = inner.slice(len..len + remaining);
                 stream.read(read_slice).await.into_inner()
             })
             .await?;
